@@ -360,6 +360,69 @@ fn cpp_delete_fragment(rep: &mut Report) {
 /// Owned buffers that cross as plain memory (no `Drop` of their own to log): every conversion between the owned
 /// slice wrappers and `Box<[T]>` / `Box<str>`, and every way of letting go of them, releases each allocation exactly
 /// once.  Counted by the harness's own allocator while the conversions run.
+
+/// A foreign trait object (`impl Trait` parameter: a data pointer and a vtable with a destructor) is owned by the
+/// Rust side once passed in: whether Rust only borrows it, drops it, or consumes it through a by-value trait method,
+/// its destructor runs exactly once.  A small binary built with the real proc macro plays the foreign side with a
+/// counting vtable and prints the counts.
+fn trait_object_probe(rep: &mut Report) {
+    const MAIN: &str = r#"#![allow(warnings)]
+use core::ffi::c_void;
+use std::sync::atomic::{AtomicUsize, Ordering::SeqCst};
+#[diplomat::bridge]
+mod ffi {
+    pub trait Job {
+        fn step(&self, x: i32) -> i32;
+        fn finish(self, x: i32) -> i32;
+    }
+    pub struct Runner { pub n: i32 }
+    impl Runner {
+        pub fn borrow_only(j: impl Job, x: i32) -> i32 { j.step(x) }
+        pub fn run_to_completion(j: impl Job, x: i32) -> i32 { let a = j.step(x); a + j.finish(x) }
+        pub fn drop_unused(j: impl Job) -> i32 { 0 }
+    }
+}
+static DROPS: AtomicUsize = AtomicUsize::new(0);
+static STEPS: AtomicUsize = AtomicUsize::new(0);
+static FINISHES: AtomicUsize = AtomicUsize::new(0);
+unsafe extern "C" fn destroy(_d: *const c_void) { DROPS.fetch_add(1, SeqCst); }
+unsafe extern "C" fn step(_d: *const c_void, x: i32) -> i32 { STEPS.fetch_add(1, SeqCst); x + 1 }
+unsafe extern "C" fn finish(_d: *const c_void, x: i32) -> i32 { FINISHES.fetch_add(1, SeqCst); x * 2 }
+#[repr(C)]
+struct Raw { data: *const c_void, vtable: ffi::Job_VTable }
+fn job() -> ffi::DiplomatTraitStruct_Job {
+    let raw = Raw { data: 8 as *const c_void, vtable: ffi::Job_VTable { destructor: Some(destroy), size: 0, alignment: 1, run_step_callback: step, run_finish_callback: finish } };
+    unsafe { core::mem::transmute(raw) }
+}
+fn counts(tag: &str, v: i32) { println!("{tag} value={v} drops={} steps={} finishes={}", DROPS.swap(0, SeqCst), STEPS.swap(0, SeqCst), FINISHES.swap(0, SeqCst)); }
+fn main() {
+    let v = ffi::Runner::borrow_only(job(), 4); counts("borrow_only", v);
+    let v = ffi::Runner::run_to_completion(job(), 4); counts("run_to_completion", v);
+    let v = ffi::Runner::drop_unused(job()); counts("drop_unused", v);
+    { let j = job(); let v = ffi::Job::finish(j, 3); counts("finish_direct", v); }
+}
+"#;
+    const EXPECT: &str = "borrow_only value=5 drops=1 steps=1 finishes=0\nrun_to_completion value=13 drops=1 steps=1 finishes=1\ndrop_unused value=0 drops=1 steps=0 finishes=0\nfinish_direct value=6 drops=1 steps=0 finishes=1\n";
+    let label = "(c03 probe trait-objects)";
+    rep.oracle_runs += 1;
+    rep.count("probe:trait-objects");
+    let d = crate::e2e::crate_dir("C03t");
+    std::fs::create_dir_all(d.join("src")).unwrap();
+    let toml = "[package]\nname = \"vtrait\"\nversion = \"0.1.0\"\nedition = \"2021\"\n\n[workspace]\n\n[dependencies]\ndiplomat = { path = \"/repo/macro\" }\ndiplomat-runtime = { path = \"/repo/runtime\" }\n";
+    std::fs::write(d.join("Cargo.toml"), toml).unwrap();
+    let _ = std::fs::copy("/repo/Cargo.lock", d.join("Cargo.lock"));
+    std::fs::write(d.join("src/main.rs"), MAIN).unwrap();
+    let (ok, out, e) = util::run(std::process::Command::new("cargo").args(["run", "--offline", "--quiet", "--message-format=short"]).env("CARGO_TARGET_DIR", d.join("target")).env_remove("RUSTFLAGS").env("CARGO_ENCODED_RUSTFLAGS", "").current_dir(&d));
+    if !ok {
+        rep.oracle_fail(label, "the trait-object probe does not build or run with the real proc macro", json!({"diagnostics": e.lines().filter(|l| l.contains("error") || l.contains("panicked")).take(5).collect::<Vec<_>>()}));
+        return;
+    }
+    if out != EXPECT {
+        let diffs: Vec<String> = EXPECT.lines().zip(out.lines()).filter(|(a, b)| a != b).map(|(a, b)| format!("expected `{a}`, got `{b}`")).collect();
+        rep.oracle_fail(label, "a foreign trait object handed to Rust is not destroyed exactly once", json!({"differences": diffs, "source": MAIN}));
+    }
+}
+
 fn owned_buffer_probe(rep: &mut Report) {
     use diplomat_runtime::{DiplomatOwnedSlice, DiplomatOwnedStr16Slice, DiplomatOwnedStrSlice, DiplomatOwnedUTF8StrSlice};
     let mut run = |name: &str, f: &dyn Fn(), rep: &mut Report| {
@@ -500,5 +563,6 @@ pub fn main(args: &[String]) {
     write_growth_probe(&mut rep);
     asymmetric_payload_probe(&mut rep);
     owned_buffer_probe(&mut rep);
+    trait_object_probe(&mut rep);
     rep.print();
 }
